@@ -31,7 +31,7 @@ LOG_CFGS = [1, 2, 3, 4, 5, 6, 7, 8]
 TMPL_CFGS = [1, 2]
 
 
-def cfg_text(mode, maxlen, prune, source, cfgs, emit=True):
+def cfg_text(mode, maxlen, prune, source, cfgs, emit=True, emitmax=99):
     return f"""CONSTANTS
   Mode = "{mode}"
   MaxLen = {maxlen}
@@ -39,6 +39,7 @@ def cfg_text(mode, maxlen, prune, source, cfgs, emit=True):
   Source = "{source}"
   Emit = {C.tla_str(bool(emit))}
   Cfgs = {C.tla_str(set(cfgs))}
+  EmitMax = {emitmax}
 INIT Init
 NEXT Next
 INVARIANT Refines
@@ -208,17 +209,20 @@ _ENVS = {}
 
 def parse_text(text):
     from scinumtools.dip import DIP
+    from . import dip_adapter
+    dip_adapter.speedup()        # DIP() looks up its caller with inspect.stack(): 90 % of a small parse
     with DIP() as dip:
         dip.add_string(text)
         return dip.parse()
 
 
-def get_env(kind):
-    """a private copy of the environment parsed from the spec's node list (solvers mutate nodes)"""
+def get_env(kind, private=False):
+    """the environment parsed from the spec's node list; a private copy where the solver mutates nodes
+    (comparisons convert their left operand in place)"""
     key = (os.getpid(), kind)
     if key not in _ENVS:
         _ENVS[key] = parse_text(env_text(kind))
-    return copy.deepcopy(_ENVS[key])
+    return copy.deepcopy(_ENVS[key]) if private else _ENVS[key]
 
 
 def clean_units():
@@ -237,7 +241,9 @@ def render_num(tokens, fns, layout):
     out = []
     i1 = 0
     pad = "" if layout == "single" else " "
-    for t in tokens:
+    for j, t in enumerate(tokens):
+        if j and t in META["atoms"] and tokens[j - 1] in META["atoms"]:
+            out.append(" ")
         if t in NUM_OP:
             out.append(pad + NUM_OP[t] + pad)
         elif t == "(":
@@ -305,7 +311,7 @@ def obs_num_base(kind, text, mdim):
 
 def obs_log(kind, text):
     from scinumtools.dip.solvers import LogicalSolver
-    env = get_env(kind)
+    env = get_env(kind, private=True)
     try:
         with LogicalSolver(env) as p:
             r = p.solve(text)
@@ -321,9 +327,11 @@ def obs_log(kind, text):
 
 def obs_tmpl(text):
     from scinumtools.dip.solvers import TemplateSolver
-    env = get_env("plain")
+    key = (os.getpid(), "tmpl")
+    if key not in _ENVS:                         # the constructor looks up its caller with inspect.stack()
+        _ENVS[key] = TemplateSolver(get_env("plain"))
     try:
-        with TemplateSolver(env) as p:
+        with _ENVS[key] as p:
             return ("val", p.solve(text))
     except Exception as e:
         return ("err", type(e).__name__ + ":" + str(e.args[0] if e.args else "")[:60])
@@ -471,8 +479,10 @@ def replay_num(rec):
     else:
         res.append(F("unspecified"))
     # drift: the machine's prediction (value in base units / raise) against the code
+    # (for strings outside the grammar a predicted raise is not compared: the DIP atom parser ignores
+    #  trailing text such as a stray parenthesis, which the token-level machine does not model)
     m = rec["mach"]
-    if m["k"] != "skip" and "custom_unit_env" not in rec["tags"]:
+    if m["k"] != "skip" and "custom_unit_env" not in rec["tags"] and not (cls == "ill" and m["k"] == "raise"):
         mexp = out_value(m, fns)
         if mexp[0] in ("val", "raise"):
             o = obs_num_base(kind, text, rec["mdim"]) if mexp[0] == "val" else obs_num(kind, text, None)
@@ -681,14 +691,14 @@ CFG_ATOMS = {
 
 
 def plan(t):
-    """(mode, maxlen, prune, cfgs) TLC runs of a tier"""
+    """TLC runs of a tier: (mode, maxlen, pruned to the grammar, atom sets, print records up to length)"""
     if t == "quick":
-        return [("num", 4, False, NUM_CFGS), ("num", 6, True, NUM_CFGS),
-                ("log", 3, False, [1, 3]), ("log", 5, True, LOG_CFGS),
-                ("tmpl", 5, False, TMPL_CFGS)], {"num": 600, "log": 600}
-    return [("num", 5, False, NUM_CFGS), ("num", 7, True, NUM_CFGS),
-            ("log", 4, False, LOG_CFGS), ("log", 7, True, LOG_CFGS),
-            ("tmpl", 6, False, TMPL_CFGS)], {"num": 6000, "log": 6000}
+        return [("num", 4, False, NUM_CFGS, 3), ("num", 6, True, NUM_CFGS, 99),
+                ("log", 3, False, [1, 3], 3), ("log", 5, True, LOG_CFGS, 99),
+                ("tmpl", 5, False, TMPL_CFGS, 5)], {"num": 600, "log": 600}
+    return [("num", 5, False, NUM_CFGS, 4), ("num", 7, True, NUM_CFGS, 99),
+            ("log", 4, False, LOG_CFGS, 3), ("log", 7, True, LOG_CFGS, 99),
+            ("tmpl", 6, False, TMPL_CFGS, 6)], {"num": 6000, "log": 6000}
 
 
 def run(replay=None):
@@ -715,8 +725,8 @@ def run(replay=None):
     states = trans = 0
     refines_bad = []
     per_run = []
-    for mode, maxlen, prune, cfgs in runs:
-        r = C.run_tlc(wd, "DipExprGen", cfg_text(mode, maxlen, prune, "enum", cfgs))
+    for mode, maxlen, prune, cfgs, emitmax in runs:
+        r = C.run_tlc(wd, "DipExprGen", cfg_text(mode, maxlen, prune, "enum", cfgs, emitmax=emitmax))
         if r.violated:
             refines_bad.append(f"{mode}/{maxlen}/{prune}: " + r.cex[:400])
         for x in r.records:
@@ -727,6 +737,7 @@ def run(replay=None):
                 recs.append(x)
         states += r.distinct; trans += r.generated
         per_run.append({"mode": mode, "maxlen": maxlen, "pruned_to_grammar": prune, "atom_sets": len(cfgs),
+                        "records_up_to": maxlen if prune else emitmax,
                         "states": r.distinct, "wall_s": round(r.wall, 1)})
     if META is None:
         raise C.MachineryError("TLC printed no meta record")
